@@ -14,6 +14,7 @@ type SdbCat struct {
 	Name  string
 	Lives int
 	Buddy interface{}
+	Twin  *SdbCat
 }
 
 // BigSdbCat is bound to Lion by @go(type: "BigSdbCat") (name only form).
@@ -21,6 +22,7 @@ type BigSdbCat struct {
 	Name  string
 	Roar  string
 	Buddy interface{}
+	Twin  *BigSdbCat
 }
 
 // Dog is bound by name.
@@ -28,6 +30,7 @@ type Dog struct {
 	Name   string
 	Tricks []string
 	Buddy  interface{}
+	Twin   *Dog
 }
 
 // PetQuery is the query root.
@@ -52,10 +55,10 @@ func PetsModel() *model.Schema {
 	}
 	s := &model.Schema{Query: "Query"}
 	s.Types = []*model.TypeDef{
-		{Kind: model.Interface, Name: "Pet", Fields: []*model.FieldDef{f("name", str), f("buddy", model.Named("Pet"))}},
-		{Kind: model.Object, Name: "Lion", Interfaces: []string{"Pet"}, Dirs: goDir("BigSdbCat"), Fields: []*model.FieldDef{f("name", str), f("roar", str), f("buddy", model.Named("Pet"))}},
-		{Kind: model.Object, Name: "Cat", Interfaces: []string{"Pet"}, Dirs: goDir("zoo.SdbCat"), Fields: []*model.FieldDef{f("name", str), f("lives", integer), f("buddy", model.Named("Pet"))}},
-		{Kind: model.Object, Name: "Dog", Interfaces: []string{"Pet"}, Fields: []*model.FieldDef{f("name", str), f("tricks", model.ListOf(str)), f("buddy", model.Named("Pet"))}},
+		{Kind: model.Interface, Name: "Pet", Fields: []*model.FieldDef{f("name", str), f("buddy", model.Named("Pet")), f("twin", model.Named("Pet"))}},
+		{Kind: model.Object, Name: "Lion", Interfaces: []string{"Pet"}, Dirs: goDir("BigSdbCat"), Fields: []*model.FieldDef{f("name", str), f("roar", str), f("buddy", model.Named("Pet")), f("twin", model.Named("Lion"))}},
+		{Kind: model.Object, Name: "Cat", Interfaces: []string{"Pet"}, Dirs: goDir("zoo.SdbCat"), Fields: []*model.FieldDef{f("name", str), f("lives", integer), f("buddy", model.Named("Pet")), f("twin", model.Named("Cat"))}},
+		{Kind: model.Object, Name: "Dog", Interfaces: []string{"Pet"}, Fields: []*model.FieldDef{f("name", str), f("tricks", model.ListOf(str)), f("buddy", model.Named("Pet")), f("twin", model.Named("Dog"))}},
 		{Kind: model.Union, Name: "Animal", Members: []string{"Lion", "Cat", "Dog"}},
 		{Kind: model.Object, Name: "Query", Fields: []*model.FieldDef{
 			f("pets", model.ListOf(model.Named("Pet"))), f("animals", model.ListOf(model.Named("Animal"))), f("pet", model.Named("Pet")), f("animal", model.Named("Animal")),
@@ -79,11 +82,13 @@ func PetsData(variant int) (*PetRoot, *model.Graph) {
 	l1 := &BigSdbCat{Name: "leo", Roar: "RAWR"}
 	d1 := &Dog{Name: "rex", Tricks: []string{"sit", "roll"}}
 	c1.Buddy, l1.Buddy, d1.Buddy = d1, c1, l1
+	c1.Twin, c2.Twin, l1.Twin, d1.Twin = c2, c1, l1, d1
 	nc1 := node("Cat", map[string]interface{}{"name": "tom", "lives": 9})
 	nc2 := node("Cat", map[string]interface{}{"name": "kit", "lives": 7, "buddy": nil})
 	nl1 := node("Lion", map[string]interface{}{"name": "leo", "roar": "RAWR"})
 	nd1 := node("Dog", map[string]interface{}{"name": "rex", "tricks": model.VList{"sit", "roll"}})
 	nc1.F["buddy"], nl1.F["buddy"], nd1.F["buddy"] = nd1, nc1, nl1
+	nc1.F["twin"], nc2.F["twin"], nl1.F["twin"], nd1.F["twin"] = nc2, nc1, nl1, nd1
 	objs := []interface{}{c1, l1, d1, c2}
 	nodes := []interface{}{nc1, nl1, nd1, nc2}
 	k := variant % len(objs)
